@@ -17,14 +17,16 @@ DATE_UNITS = {"DAY", "WEEK", "MONTH", "YEAR", "HOUR", "MINUTE", "SECOND"}
 
 # https://docs.exasol.com/db/latest/sql_references/functions/alphabeticallistfunctions/zeroifnull.htm
 def _build_zeroifnull(args: list) -> exp.If:
-    cond = exp.Is(this=seq_get(args, 0), expression=exp.Null())
-    return exp.If(this=cond, true=exp.Literal.number(0), false=seq_get(args, 0))
+    this = seq_get(args, 0)
+    cond = exp.Is(this=this.copy() if this is not None else None, expression=exp.Null())
+    return exp.If(this=cond, true=exp.Literal.number(0), false=this)
 
 
 # https://docs.exasol.com/db/latest/sql_references/functions/alphabeticallistfunctions/nullifzero.htm
 def _build_nullifzero(args: list) -> exp.If:
-    cond = exp.EQ(this=seq_get(args, 0), expression=exp.Literal.number(0))
-    return exp.If(this=cond, true=exp.Null(), false=seq_get(args, 0))
+    this = seq_get(args, 0)
+    cond = exp.EQ(this=this.copy() if this is not None else None, expression=exp.Literal.number(0))
+    return exp.If(this=cond, true=exp.Null(), false=this)
 
 
 class ExasolParser(parser.Parser):
